@@ -19,12 +19,14 @@ from hugr.ops import (
     Const,
     Custom,
     DataflowBlock,
+    DataflowOp,
     ExitBlock,
     FuncDecl,
     FuncDefn,
     Input,
     LoadConst,
     LoadFunc,
+    Op,
     Output,
     Tag,
     TailLoop,
@@ -58,8 +60,11 @@ class ModelExport:
         """Export the node with the given node id."""
         node_data = self.hugr[node]
 
-        inputs = [self.link_name(InPort(node, i)) for i in range(node_data._num_inps)]
-        outputs = [self.link_name(OutPort(node, i)) for i in range(node_data._num_outs)]
+        # A node lists the value ports of its signature (control ports for blocks),
+        # whether or not they are connected; static and order ports are not listed.
+        num_inps, num_outs = _num_model_ports(node_data.op)
+        inputs = [self.link_name(InPort(node, i)) for i in range(num_inps)]
+        outputs = [self.link_name(OutPort(node, i)) for i in range(num_outs)]
         meta = []
 
         # Export JSON metadata
@@ -401,15 +406,13 @@ class ModelExport:
                 case Input() as op:
                     source_types = model.List([type.to_model() for type in op.types])
                     sources = [
-                        self.link_name(OutPort(child, i))
-                        for i in range(child_data._num_outs)
+                        self.link_name(OutPort(child, i)) for i in range(len(op.types))
                     ]
 
                 case Output() as op:
                     target_types = model.List([type.to_model() for type in op.types])
                     targets = [
-                        self.link_name(InPort(child, i))
-                        for i in range(child_data._num_inps)
+                        self.link_name(InPort(child, i)) for i in range(len(op.types))
                     ]
 
                 case _:
@@ -458,10 +461,7 @@ class ModelExport:
                     target_types = model.List(
                         [type.to_model() for type in op.cfg_outputs]
                     )
-                    targets = [
-                        self.link_name(InPort(child, i))
-                        for i in range(child_data._num_inps)
-                    ]
+                    targets = [self.link_name(InPort(child, 0))]
                 case DataflowBlock() as op:
                     if source is None:
                         source_types = model.List(
@@ -557,6 +557,21 @@ class ModelExport:
                 return op.val.to_model()
             case op:
                 return None
+
+
+def _num_model_ports(op: Op) -> tuple[int, int]:
+    """Number of input and output ports a node lists in the model."""
+    match op:
+        case DataflowBlock():
+            # one control input, one control output per successor
+            return 1, len(op.sum_ty.variant_rows)
+        case Call():
+            return len(op.instantiation.input), len(op.instantiation.output)
+        case DataflowOp():
+            sig = op.outer_signature()
+            return len(sig.input), len(sig.output)
+        case _:
+            return 0, 0
 
 
 def _mangle_name(node: Node, name: str) -> str:
